@@ -2,9 +2,11 @@
 
 mod alpha;
 mod common;
+mod docgen;
 mod drive;
 mod explore;
 mod props;
+mod rmatch;
 mod rtok;
 mod tokseam;
 
